@@ -122,6 +122,30 @@ func runC07(r *mc.Run) {
 		v := v
 		add(fmt.Sprintf("isvsvn/report=%#x", v), func(qe []byte) { binary.LittleEndian.PutUint16(qe[258:], uint16(v)) }, nil)
 	}
+	// the same level lists (length <= 2) around ISVSVN values with the high bit / all bits of the 16-bit field set
+	for _, rep := range []int{0x8001, 0xffff, 0x0100} {
+		rep := rep
+		hi := []int{rep - 1, rep, rep + 1}
+		for n := 1; n <= 2; n++ {
+			total := 21
+			if n == 2 {
+				total *= 9
+			}
+			for code := 0; code < total; code++ {
+				c := code
+				var ls []world.Level
+				name := fmt.Sprintf("report=%#x/%#x:%s", rep, hi[c%3], statuses[(c/3)%7])
+				ls = append(ls, mkLevel(hi[c%3], statuses[(c/3)%7]))
+				c /= 21
+				if n == 2 {
+					ls = append(ls, mkLevel(hi[c%3], classes[(c/3)%3]))
+					name += fmt.Sprintf(",%#x:%s", hi[c%3], classes[(c/3)%3])
+				}
+				lsCopy := ls
+				add("levels-high/"+name, func(qe []byte) { binary.LittleEndian.PutUint16(qe[258:], uint16(rep)) }, func(e *world.EnclaveIdentity) { e.TcbLevels = lsCopy })
+			}
+		}
+	}
 	// pairs of single-field deviations (wiring mistakes show up as a verdict that needs both)
 	singles := []c07case{}
 	for _, c := range cases {
